@@ -68,6 +68,19 @@ def run(repo, res):
     # the text search itself, interpreted with the visitors' call shape on a corpus of layouts
     from .. import textsearch
     api_model.apply(res, textsearch.model(repo), {'text': 'C11-R3', 'text-count': 'C11-R3'}, SCOPE, 0)
+    # a search string must be one token: white space (or a line continuation) may separate any two tokens of the grammar
+    hyg = R.binding_hygiene_records(repo)
+    seen_g = set()
+    for cls, variant, search, ident, line in hyg['glued']:
+        k = '%s searches %r for the identifier %s' % (R.method_name(repo, cls), search.replace(ident, '<name>'), '<name>')
+        if k in seen_g:
+            continue
+        seen_g.add(k)
+        res.check('C11-R3', k, False, line[0], line[1],
+                  'on %s shape `%s` the position of `%s` is searched with the string %r, which glues another token (or a blank) to the '
+                  'identifier: any other white space between the two tokens makes the search fail and the position fall back to the '
+                  'statement start' % (cls, variant, ident, search))
+    res.ob('C11-R3', 'search strings are bare identifiers', not hyg['glued'], sample='%d shape paths' % hyg['n'])
     res.count('parser_positioned_binders', n1, floor=35)
     res.count('text_searched_binders', n3, floor=5)
     # fallback of the text search is the statement start
